@@ -120,7 +120,10 @@ func (s *storeMemoizer) GraphNames(ctx context.Context, names chan<- string) err
 type graphMemoizer struct {
 	g storage.Graph
 
-	mu   sync.RWMutex
+	mu sync.RWMutex
+	// gen counts the invalidations; a lookup only memoizes what it read if no
+	// invalidation happened since it consulted the cache.
+	gen  uint64
 	memN map[string][]*node.Node
 	memP map[string][]*predicate.Predicate
 	memO map[string][]*triple.Object
@@ -147,10 +150,27 @@ func (g *graphMemoizer) AddTriples(ctx context.Context, ts []*triple.Triple) err
 	verifYield(ctx, "write:after-clear")
 	defer verifYield(ctx, "write:after-forward")
 
-	return g.g.AddTriples(ctx, ts)
+	err := g.g.AddTriples(ctx, ts)
+	// A lookup that missed the cache before or during the write may have read
+	// the state before it and still be about to memoize it, or have done so
+	// already: start a new generation and drop what was memoized meanwhile.
+	g.invalidate()
+	return err
 }
 
 // RemoveTriples removes the triples from the storage. Removing triples that
+// invalidate starts a new generation and empties the caches.
+func (g *graphMemoizer) invalidate() {
+	g.mu.Lock()
+	g.gen++
+	g.memN = make(map[string][]*node.Node)
+	g.memP = make(map[string][]*predicate.Predicate)
+	g.memO = make(map[string][]*triple.Object)
+	g.memT = make(map[string][]*triple.Triple)
+	g.memE = make(map[string]bool)
+	g.mu.Unlock()
+}
+
 // are not present on the store should not fail.
 func (g *graphMemoizer) RemoveTriples(ctx context.Context, ts []*triple.Triple) error {
 	g.mu.Lock()
@@ -164,7 +184,12 @@ func (g *graphMemoizer) RemoveTriples(ctx context.Context, ts []*triple.Triple) 
 	verifYield(ctx, "write:after-clear")
 	defer verifYield(ctx, "write:after-forward")
 
-	return g.g.RemoveTriples(ctx, ts)
+	err := g.g.RemoveTriples(ctx, ts)
+	// A lookup that missed the cache before or during the write may have read
+	// the state before it and still be about to memoize it, or have done so
+	// already: start a new generation and drop what was memoized meanwhile.
+	g.invalidate()
+	return err
 }
 
 func combinedUUID(op string, lo *storage.LookupOptions, uuids ...uuid.UUID) string {
@@ -202,6 +227,7 @@ func (g *graphMemoizer) Objects(ctx context.Context, s *node.Node, p *predicate.
 	k := combinedUUID("Objects", lo, s.UUID(), p.UUID())
 	g.mu.RLock()
 	v := g.memO[k]
+	gen := g.gen
 	g.mu.RUnlock()
 	if v != nil {
 		verifYield(ctx, "read:hit")
@@ -252,7 +278,9 @@ func (g *graphMemoizer) Objects(ctx context.Context, s *node.Node, p *predicate.
 	wg.Wait()
 	verifYield(ctx, "read:after-forward")
 	g.mu.Lock()
-	g.memO[k] = mobjs
+	if g.gen == gen {
+		g.memO[k] = mobjs
+	}
 	g.mu.Unlock()
 	verifYield(ctx, "read:after-store")
 	return err
@@ -281,6 +309,7 @@ func (g *graphMemoizer) Subjects(ctx context.Context, p *predicate.Predicate, o 
 	k := combinedUUID("Subjects", lo, p.UUID(), o.UUID())
 	g.mu.RLock()
 	v := g.memN[k]
+	gen := g.gen
 	g.mu.RUnlock()
 	if v != nil {
 		verifYield(ctx, "read:hit")
@@ -331,7 +360,9 @@ func (g *graphMemoizer) Subjects(ctx context.Context, p *predicate.Predicate, o 
 	wg.Wait()
 	verifYield(ctx, "read:after-forward")
 	g.mu.Lock()
-	g.memN[k] = msubs
+	if g.gen == gen {
+		g.memN[k] = msubs
+	}
 	g.mu.Unlock()
 	verifYield(ctx, "read:after-store")
 	return err
@@ -350,6 +381,7 @@ func (g *graphMemoizer) PredicatesForSubject(ctx context.Context, s *node.Node, 
 	k := combinedUUID("PredicatesForSubject", lo, s.UUID())
 	g.mu.RLock()
 	v := g.memP[k]
+	gen := g.gen
 	g.mu.RUnlock()
 	if v != nil {
 		verifYield(ctx, "read:hit")
@@ -400,7 +432,9 @@ func (g *graphMemoizer) PredicatesForSubject(ctx context.Context, s *node.Node, 
 	wg.Wait()
 	verifYield(ctx, "read:after-forward")
 	g.mu.Lock()
-	g.memP[k] = mpreds
+	if g.gen == gen {
+		g.memP[k] = mpreds
+	}
 	g.mu.Unlock()
 	verifYield(ctx, "read:after-store")
 	return err
@@ -419,6 +453,7 @@ func (g *graphMemoizer) PredicatesForObject(ctx context.Context, o *triple.Objec
 	k := combinedUUID("PredicatesForObject", lo, o.UUID())
 	g.mu.RLock()
 	v := g.memP[k]
+	gen := g.gen
 	g.mu.RUnlock()
 	if v != nil {
 		verifYield(ctx, "read:hit")
@@ -469,7 +504,9 @@ func (g *graphMemoizer) PredicatesForObject(ctx context.Context, o *triple.Objec
 	wg.Wait()
 	verifYield(ctx, "read:after-forward")
 	g.mu.Lock()
-	g.memP[k] = mpreds
+	if g.gen == gen {
+		g.memP[k] = mpreds
+	}
 	g.mu.Unlock()
 	verifYield(ctx, "read:after-store")
 	return err
@@ -488,6 +525,7 @@ func (g *graphMemoizer) PredicatesForSubjectAndObject(ctx context.Context, s *no
 	k := combinedUUID("PredicatesForSubjectAndObject", lo, s.UUID(), o.UUID())
 	g.mu.RLock()
 	v := g.memP[k]
+	gen := g.gen
 	g.mu.RUnlock()
 	if v != nil {
 		verifYield(ctx, "read:hit")
@@ -538,7 +576,9 @@ func (g *graphMemoizer) PredicatesForSubjectAndObject(ctx context.Context, s *no
 	wg.Wait()
 	verifYield(ctx, "read:after-forward")
 	g.mu.Lock()
-	g.memP[k] = mpreds
+	if g.gen == gen {
+		g.memP[k] = mpreds
+	}
 	g.mu.Unlock()
 	verifYield(ctx, "read:after-store")
 	return err
@@ -557,6 +597,7 @@ func (g *graphMemoizer) TriplesForSubject(ctx context.Context, s *node.Node, lo 
 	k := combinedUUID("TriplesForSubject", lo, s.UUID())
 	g.mu.RLock()
 	v := g.memT[k]
+	gen := g.gen
 	g.mu.RUnlock()
 	if v != nil {
 		verifYield(ctx, "read:hit")
@@ -607,7 +648,9 @@ func (g *graphMemoizer) TriplesForSubject(ctx context.Context, s *node.Node, lo 
 	wg.Wait()
 	verifYield(ctx, "read:after-forward")
 	g.mu.Lock()
-	g.memT[k] = mts
+	if g.gen == gen {
+		g.memT[k] = mts
+	}
 	g.mu.Unlock()
 	verifYield(ctx, "read:after-store")
 	return err
@@ -626,6 +669,7 @@ func (g *graphMemoizer) TriplesForPredicate(ctx context.Context, p *predicate.Pr
 	k := combinedUUID("TriplesForPredicate", lo, p.UUID())
 	g.mu.RLock()
 	v := g.memT[k]
+	gen := g.gen
 	g.mu.RUnlock()
 	if v != nil {
 		verifYield(ctx, "read:hit")
@@ -676,7 +720,9 @@ func (g *graphMemoizer) TriplesForPredicate(ctx context.Context, p *predicate.Pr
 	wg.Wait()
 	verifYield(ctx, "read:after-forward")
 	g.mu.Lock()
-	g.memT[k] = mts
+	if g.gen == gen {
+		g.memT[k] = mts
+	}
 	g.mu.Unlock()
 	verifYield(ctx, "read:after-store")
 	return err
@@ -695,6 +741,7 @@ func (g *graphMemoizer) TriplesForObject(ctx context.Context, o *triple.Object, 
 	k := combinedUUID("TriplesForObject", lo, o.UUID())
 	g.mu.RLock()
 	v := g.memT[k]
+	gen := g.gen
 	g.mu.RUnlock()
 	if v != nil {
 		verifYield(ctx, "read:hit")
@@ -745,7 +792,9 @@ func (g *graphMemoizer) TriplesForObject(ctx context.Context, o *triple.Object, 
 	wg.Wait()
 	verifYield(ctx, "read:after-forward")
 	g.mu.Lock()
-	g.memT[k] = mts
+	if g.gen == gen {
+		g.memT[k] = mts
+	}
 	g.mu.Unlock()
 	verifYield(ctx, "read:after-store")
 	return err
@@ -764,6 +813,7 @@ func (g *graphMemoizer) TriplesForSubjectAndPredicate(ctx context.Context, s *no
 	k := combinedUUID("TriplesForSubjectAndPredicate", lo, s.UUID(), p.UUID())
 	g.mu.RLock()
 	v := g.memT[k]
+	gen := g.gen
 	g.mu.RUnlock()
 	if v != nil {
 		verifYield(ctx, "read:hit")
@@ -814,7 +864,9 @@ func (g *graphMemoizer) TriplesForSubjectAndPredicate(ctx context.Context, s *no
 	wg.Wait()
 	verifYield(ctx, "read:after-forward")
 	g.mu.Lock()
-	g.memT[k] = mts
+	if g.gen == gen {
+		g.memT[k] = mts
+	}
 	g.mu.Unlock()
 	verifYield(ctx, "read:after-store")
 	return err
@@ -833,6 +885,7 @@ func (g *graphMemoizer) TriplesForPredicateAndObject(ctx context.Context, p *pre
 	k := combinedUUID("TriplesForPredicateAndObject", lo, p.UUID(), o.UUID())
 	g.mu.RLock()
 	v := g.memT[k]
+	gen := g.gen
 	g.mu.RUnlock()
 	if v != nil {
 		verifYield(ctx, "read:hit")
@@ -883,7 +936,9 @@ func (g *graphMemoizer) TriplesForPredicateAndObject(ctx context.Context, p *pre
 	wg.Wait()
 	verifYield(ctx, "read:after-forward")
 	g.mu.Lock()
-	g.memT[k] = mts
+	if g.gen == gen {
+		g.memT[k] = mts
+	}
 	g.mu.Unlock()
 	verifYield(ctx, "read:after-store")
 	return err
@@ -894,6 +949,7 @@ func (g *graphMemoizer) Exist(ctx context.Context, t *triple.Triple) (bool, erro
 	k := combinedUUID("Exist", storage.DefaultLookup, t.UUID())
 	g.mu.RLock()
 	v, ok := g.memE[k]
+	gen := g.gen
 	g.mu.RUnlock()
 	if ok {
 		verifYield(ctx, "read:hit")
@@ -907,7 +963,9 @@ func (g *graphMemoizer) Exist(ctx context.Context, t *triple.Triple) (bool, erro
 	verifYield(ctx, "read:after-forward")
 	if err == nil {
 		g.mu.Lock()
-		g.memE[k] = b
+		if g.gen == gen {
+			g.memE[k] = b
+		}
 		g.mu.Unlock()
 	}
 	verifYield(ctx, "read:after-store")
@@ -921,6 +979,7 @@ func (g *graphMemoizer) Triples(ctx context.Context, lo *storage.LookupOptions, 
 	k := combinedUUID("Triples", lo)
 	g.mu.RLock()
 	v := g.memT[k]
+	gen := g.gen
 	g.mu.RUnlock()
 	if v != nil {
 		verifYield(ctx, "read:hit")
@@ -971,7 +1030,9 @@ func (g *graphMemoizer) Triples(ctx context.Context, lo *storage.LookupOptions, 
 	wg.Wait()
 	verifYield(ctx, "read:after-forward")
 	g.mu.Lock()
-	g.memT[k] = mts
+	if g.gen == gen {
+		g.memT[k] = mts
+	}
 	g.mu.Unlock()
 	verifYield(ctx, "read:after-store")
 	return err
